@@ -1,15 +1,18 @@
 (* C14 - reverse-complement symmetry: the mirrored design yields the mirrored library.
    Only statements, closed by `exact`, and their assumptions.
 
-   Full statement (decided on the real tool by the metamorphic check, not yet one theorem): for every well-formed
+   Full statement (decided on the real tool by the metamorphic check): for every well-formed
    design D on a contig of length n and its mirror image D' (reference reverse-complemented, p -> n+1-p on every
    coordinate, strand flipped, vectors reversed, variants mirrored), with reverse complementing of minus-strand
    oligonucleotides on, the multisets of (mutator, mseq, ref_aa, alt_aa, mut_type, pam_mut_annot) of the two runs coincide
-   for the orientation-free mutators.  What is proved here (the C14_partial theorems): every place where the code branches on the
-   strand, or where orientation enters, commutes with mirroring - the composition over a whole run is covered by the
-   correspondence on mirrored pairs. *)
+   for the orientation-free mutators.  What is proved here: C14_region_rows_mirror - for one coding region, the (label, mutation)
+   rows of the mirrored region are exactly the mirror images of the rows of the region, for every combination of orientation-free
+   mutators - with the oligonucleotide (C14_partial_alter_revcomp) and annotation (C14_annot_codon_mirror) transported alike;
+   and the C14_partial theorems: every place where the code branches on the strand, or where orientation enters, commutes with
+   mirroring.  Not one theorem: the composition over a whole run (several regions, PAM edits, custom variants, metadata assembly),
+   which is covered by the correspondence on mirrored pairs. *)
 From VV Require Import Model.Base Model.Pattern Model.Seq Model.CodonTable Model.Transcript Model.Mirror
-  Spec.CodonSpec Proofs.CodonTableProofs Proofs.MirrorProofs Generated.KernelsFrame Proofs.KernelFrameEquiv.
+  Model.Mutators Spec.CodonSpec Spec.RegionSpec Spec.MirrorSpec Proofs.CodonTableProofs Proofs.MirrorProofs Proofs.MirrorRegionProofs Generated.DefaultTable Generated.KernelsFrame Proofs.KernelFrameEquiv.
 
 (* get_range_cds_exts: prefix and suffix lengths swap under mirroring, nothing else changes (any frame, any region) *)
 Theorem C14_partial_exon_mirror : forall n s e r,
@@ -50,6 +53,58 @@ Theorem C14_partial_top_codon_mirror : forall rows a c,
   get_second_best_codon (from_list rows true) a = map_res (option_map revcomp) (get_second_best_codon (from_list rows false) a).
 Proof. exact rc_table_transport. Qed.
 
+(* one coding region: the documented rows (Spec.RegionSpec.row_spec) of the mirrored region, read in the reverse-complemented
+   table, are the mirror images of the documented rows of the region, for every orientation-free mutator *)
+Theorem C14_row_spec_mirror : forall n s e r c c' t k v,
+  cds_mirror n c c' -> c_start c = rs r -> c_len c = rlen r -> rs r <= re r -> orientation_free k ->
+  (row_spec (map rc_row t) (flip s) (mirror_exon n e) (mirror_range n r) c' k (mirror_var n v) <-> row_spec t s e r c k v).
+Proof. exact row_spec_mirror. Qed.
+
+(* one coding region, the model of the code on both sides: whenever the region and its mirror image are both processed (same
+   mutators; codon table by strand as CodonTableBuilder.build does), a (label, mutation) row is emitted for the mirrored region
+   iff its mirror image is emitted for the region *)
+Theorem C14_region_rows_mirror : forall n rows tr tr' q e r c c' ms plain annotated plain' annotated',
+  t_strand tr' = flip (t_strand tr) ->
+  0 <= rs r <= re r -> re r <= n -> s_start q <= rs r -> re r - s_start q + 1 <= s_len q ->
+  get_cds_seq_exon tr q e r = Ok c ->
+  get_cds_seq_exon tr' (mirror_seq n q) (mirror_exon n e) (mirror_range n r) = Ok c' ->
+  (forall k, In k ms -> kind_wf k /\ orientation_free k) ->
+  region_variants_cds (strand_table rows (t_strand tr)) c ms = Ok (plain, annotated) ->
+  region_variants_cds (strand_table rows (t_strand tr')) c' ms = Ok (plain', annotated') ->
+  forall lbl v,
+    row_of (keep_in_region (mirror_range n r) (plain' ++ annotated')) lbl (mirror_var n v) <->
+    row_of (keep_in_region r (plain ++ annotated)) lbl v.
+Proof. exact region_rows_mirror. Qed.
+
+(* mirroring rows is a bijection *)
+Theorem C14_mirror_var_involutive : forall n v, mirror_var n (mirror_var n v) = v.
+Proof. exact mirror_var_involutive. Qed.
+
+(* amino-acid annotation of a codon-level row and of its mirror image agree *)
+Theorem C14_annot_codon_mirror : forall n t c c' v src a a',
+  zlen (v_ref v) = 3 ->
+  annotate t c v src = Ok a -> annotate (map rc_row t) c' (mirror_var n v) src = Ok a' ->
+  a_aa_ref a' = a_aa_ref a /\ a_aa_alt a' = a_aa_alt a /\ a_mut_type a' = a_mut_type a.
+Proof. exact annot_codon_mirror. Qed.
+
+(* non-vacuity: a two-exon transcript and its mirror image on a contig of 41 bases; both regions are processed and yield rows *)
+Example C14_region_example :
+  let q := mkSeq 1 (d "ACGTACGTAGGCTTAACCGGATATATTTGCAGCATGCAAAA") in
+  let n := 41 in
+  let tr := mkTr Plus [mkEx 10 19 0 1; mkEx 30 37 1 2] in
+  let tr' := mkTr Minus [mirror_exon n (mkEx 30 37 1 2); mirror_exon n (mkEx 10 19 0 1)] in
+  let ms := [MSnvRe; MInframe; MAla; MStop; MAa; MDelK 1 0] in
+  match get_cds_seq_exon tr q (mkEx 10 19 0 1) (mkRange 12 18),
+        get_cds_seq_exon tr' (mirror_seq n q) (mirror_exon n (mkEx 10 19 0 1)) (mirror_range n (mkRange 12 18)) with
+  | Ok c, Ok c' =>
+      match region_variants_cds (strand_table default_rows Plus) c ms, region_variants_cds (strand_table default_rows Minus) c' ms with
+      | Ok (p, a), Ok (p', a') => (length (p ++ a) = length (p' ++ a') /\ length a >= 50)%nat
+      | _, _ => False
+      end
+  | _, _ => False
+  end.
+Proof. vm_compute. lia. Qed.
+
 (* non-vacuity: exon [10,19] frame 1 on +, region [12,18], contig of 40 bases *)
 Example C14_example :
   range_cds_exts Plus (mkEx 10 19 0 1) (mkRange 12 18) = Ok (1, 1) /\
@@ -74,3 +129,7 @@ Print Assumptions C14_partial_annotation_mirror.
 Print Assumptions C14_partial_snvre_rule_mirror.
 Print Assumptions C14_partial_top_codon_mirror.
 Print Assumptions C14_strand_branches_match_source.
+Print Assumptions C14_row_spec_mirror.
+Print Assumptions C14_region_rows_mirror.
+Print Assumptions C14_mirror_var_involutive.
+Print Assumptions C14_annot_codon_mirror.
